@@ -412,16 +412,21 @@ class HttpCommunicationLayer(CommunicationLayer):
 
         dest_address = "http://{}:{}/pydcop".format(server, port)
         msg_repr = simple_repr(msg.msg)
+        headers = {
+            "sender-agent": src_agent,
+            "dest-agent": dest_agent,
+            "sender-comp": msg.src_comp,
+            "dest-comp": msg.dest_comp,
+            "type": str(msg.msg_type),
+        }
+        # Synchronous computations stamp their messages with a cycle id, which
+        # is not part of the message representation.
+        if getattr(msg.msg, "cycle_id", None) is not None:
+            headers["cycle-id"] = str(msg.msg.cycle_id)
         try:
             r = requests.post(
                 dest_address,
-                headers={
-                    "sender-agent": src_agent,
-                    "dest-agent": dest_agent,
-                    "sender-comp": msg.src_comp,
-                    "dest-comp": msg.dest_comp,
-                    "type": str(msg.msg_type),
-                },
+                headers=headers,
                 # requests' own json encoder rejects infinite values, which
                 # several algorithms use as initial bounds.
                 data=json.dumps(msg_repr),
@@ -471,9 +476,10 @@ class MPCHttpHandler(BaseHTTPRequestHandler):
             print(post_data)
             raise jde
 
-        comp_msg = ComputationMessage(
-            src_comp, dest_comp, from_repr(content), int(type)
-        )
+        msg_obj = from_repr(content)
+        if "cycle-id" in self.headers:
+            msg_obj.cycle_id = int(self.headers["cycle-id"])
+        comp_msg = ComputationMessage(src_comp, dest_comp, msg_obj, int(type))
         try:
             self.server.comm.on_post_message(self.path, sender, dest, comp_msg)
 
